@@ -389,6 +389,8 @@ func init() {
 				rj.NewObj(rj.Member{Name: "b", V: rj.NewObj(rj.Member{Name: "a", V: rj.Clone(inner)})}))
 		}
 		runMergeEdges(ctx, "C02", false, echoDocs, echoDocs, mergeCfg{})
+		look := pointerLookalikeObjects()
+		runMergeEdges(ctx, "C02", false, append(look, rj.MustParse(`{"a":{"a/b":1,"a~1b":2}}`)), look, mergeCfg{})
 		if tier == "quick" {
 			v3 := famV3()
 			runMergeEdges(ctx, "C02", false, v3, v3, mergeCfg{})
@@ -450,6 +452,14 @@ func init() {
 			p2s = append(append([]*rj.Value(nil), onlyObjs(famV4())...), parseAll([]string{`[1]`, `"s"`, `1`, `null`, `[{"a":null}]`, `true`})...)
 		}
 		runCompose(ctx, "C07", false, dedupe(docs), ps, p2s)
+		// names that look like pointer escapes of one another, top level and nested
+		look := pointerLookalikeObjects()
+		var lookN []*rj.Value
+		for _, o := range look {
+			lookN = append(lookN, o, rj.NewObj(rj.Member{Name: "a", V: o}))
+		}
+		lookDocs := parseAll([]string{`{}`, `{"a/b":1,"a~1b":2,"m~n":3,"m~0n":4}`, `{"a":{"a/b":1,"a~1b":2,"m~n":3,"m~0n":4}}`, `{"a~1b":{"x":1}}`})
+		runCompose(ctx, "C07", false, lookDocs, lookN, lookN)
 	}, false)
 }
 
